@@ -295,12 +295,31 @@ move_thread_to_final(const char *src, const char *dst)
 		return -1;
 	}
 
+	int ret = 0;
 	size_t bytes;
-	while ((bytes = fread(buffer, 1, sizeof(buffer), infile)) > 0)
-		fwrite(buffer, 1, bytes, outfile);
+	while ((bytes = fread(buffer, 1, sizeof(buffer), infile)) > 0) {
+		if (fwrite(buffer, 1, bytes, outfile) != bytes) {
+			err("fwrite(%s) failed:", dst);
+			ret = -1;
+			break;
+		}
+	}
 
-	fclose(outfile);
+	if (ferror(infile)) {
+		err("fread(%s) failed:", src);
+		ret = -1;
+	}
+
+	if (fclose(outfile) != 0) {
+		err("fclose(%s) failed:", dst);
+		ret = -1;
+	}
+
 	fclose(infile);
+
+	/* Keep the source file if the copy is not complete */
+	if (ret != 0)
+		return -1;
 
 	if (remove(src) != 0) {
 		err("remove(%s) failed:", src);
